@@ -269,6 +269,10 @@ func runScenario(name string) observed {
 		o.report = head(hangReport(text), 2400)
 	case o.broken:
 		o.report = head(text, 2400)
+	case o.data != nil && len(o.data.History) > 0:
+		// not a verdict (the verdict is lin_ok / history_sequential in coq/Check/C17.v): the lookups that missed a
+		// mapping established before they began, for the reader of the replay file
+		o.report = head(lostUpdates(o.data.History), 2400)
 	}
 	return o
 }
@@ -381,6 +385,49 @@ func TestC17(t *testing.T) {
 	if err := col.Flush(); err != nil {
 		t.Fatal(err)
 	}
+}
+
+// lostUpdates names the lookups of a history whose read section missed (error, or the node was asked) although a
+// set or an answered lookup of the same root had returned before the lookup was called and no clean that removes
+// the slot overlaps or lies between the two.
+func lostUpdates(h []histOp) string {
+	var sb strings.Builder
+	for _, l := range h {
+		if l.Kind != 1 || !(l.Asked || l.Res < 0) {
+			continue
+		}
+		for _, w := range h {
+			var v uint64
+			switch {
+			case w.Key != l.Key || w.Resp >= l.Inv:
+				continue
+			case w.Kind == 0:
+				v = w.Val
+			case w.Kind == 1 && w.Res >= 0:
+				v = uint64(w.Res)
+			default:
+				continue
+			}
+			explained := false
+			for _, c := range h {
+				if c.Kind == 2 && v < c.Val && !(c.Resp < w.Inv) && !(l.Resp < c.Inv) {
+					explained = true
+				}
+			}
+			if !explained {
+				what := map[uint64]string{0: "SetBlockRootToSlot / block event", 1: "BlockRootToSlot"}[w.Kind]
+				fmt.Fprintf(&sb, "lost update: BlockRootToSlot(root %d) called at stamp %d did not find the root in the cache, although %s had put root %d -> slot %d there and returned at stamp %d, and no clean with a minimum slot above %d runs in between; cleans:", l.Key, l.Inv, what, w.Key, v, w.Resp, v)
+				for _, c := range h {
+					if c.Kind == 2 && !(c.Resp < w.Inv) && !(l.Resp < c.Inv) {
+						fmt.Fprintf(&sb, " [stamps %d..%d, minimum slot %d]", c.Inv, c.Resp, c.Val)
+					}
+				}
+				sb.WriteString("\n")
+				break
+			}
+		}
+	}
+	return sb.String()
 }
 
 func raceReport(text string) string {
